@@ -19,7 +19,7 @@ ASSUMPTIONS = [
 RULE = ("run = 2-7 ops from {generator CLI on seeded accepted parameters (tiny/small/wide/tall boards, probabilities k/100, "
         "many-digit, near-0/near-1), manual entry point on a hand-made board, plant a longer/torn/garbage file at the path the "
         "next invocation writes, OSError at open/n-th write/close, Ctrl-C/kill at a seeded step inside the writer followed by a "
-        "clean regeneration, the same entry points called repeatedly inside one long-lived process, restart}; after every normal exit: one file, loads to game_a/b/c, structure, solve-or-no-solution; "
+        "clean regeneration, the same entry points called repeatedly inside one long-lived process, restart}; after every normal exit: one file, loads to game_a/b/c, structure, solve-or-no-solution (per game in a pristine process, and for cheap files also through the solver CLI in a restarted process under a seeded stepping/frozen/backward clock); "
         "non-trivial = a generated file loaded and solved with an overwrite or a non-tiny board or a fired fault; "
         "distinct = hash of (parameter sets, op shapes, faults fired)")
 
@@ -298,11 +298,17 @@ def _judge(i_op, op, out, before, after, changed, wopens, w, ctx, events, states
         if not _solvable_range(op):
             w.probe("solve-skipped-extreme-probability")
             return None
+        conclusive, total_steps, expect = True, 0, {}
         for name in ("game_a", "game_b", "game_c"):
             e = enc({k: games[name][k] for k in ops.FIELDS})
             for prune in (True, False):
                 s = common.ref_solve(ctx, e, prune)
                 st = s["status"]
+                total_steps += s.get("steps") or 0
+                if st not in ("ok", "exc"):
+                    conclusive = False
+                if prune:
+                    expect[name] = st
                 if st == "ok":
                     val = dec(s["value"])
                     n = len(games[name]["players"])
@@ -329,6 +335,31 @@ def _judge(i_op, op, out, before, after, changed, wopens, w, ctx, events, states
                     return viol("I11.3", i_op, "%s: solve of %s (prune=%s) fails with %s" % (
                         what, name, prune, "%s(%r)" % (s.get("etype"), s.get("emsg"))), "solve-error",
                         etype=s.get("etype"), game=name)
+        # the pipeline a user runs: `conditionalrewards.py -f <generated file>` in another process,
+        # under whatever the wall clock does meanwhile
+        if conclusive and total_steps <= 60000:
+            ent = op.get("entropy", 0)
+            clock = (op.get("env") or {}).get("clock") or {
+                "mode": ("steady", "frozen", "tiny", "backward", "jump")[ent % 5], "seed": ent}
+            cap = {}
+            out = ops.solver_cli(w, rel, False, None, {"clock": clock, "step_cap": 20 * total_steps + 200000}, ent, cap)
+            events.append([i_op, "solver_cli", out["status"], out["steps"], clock["mode"]])
+            if out["status"] != "ok":
+                return viol("I11.3", i_op, "%s, then `conditionalrewards.py -f %s` (clock: %s): the solver run did not finish: %s" % (
+                    what, rel, clock["mode"], genops.show(out)), "solver-cli-failed", etype=out.get("etype"))
+            ret = cap.get("ret_obj")
+            if isinstance(ret, dict):
+                for name in ("game_a", "game_b", "game_c"):
+                    e1 = ret.get(name)
+                    msg = str(e1.get("msg")) if isinstance(e1, dict) else None
+                    if expect[name] == "ok":
+                        good = isinstance(e1, dict) and e1.get("rewards") is not None and e1.get("probabilities") is not None
+                    else:
+                        good = msg is not None and "no solution" in msg
+                    if not good:
+                        return viol("I11.3", i_op, "%s, then the solver CLI: %s is neither solved nor reported as having no solution "
+                                    "(alone: %s; entry: %s)" % (what, name, expect[name], short(e1, 300)), "solver-cli-entry", game=name)
+                w.probe("solver-cli-runs-checked")
     return None
 
 
